@@ -2089,6 +2089,9 @@ func (r *Raft) nextConfiguration(next *Configuration) {
 	for id := range next.Members {
 		if _, ok := r.configuration.Members[id]; !ok {
 			r.followers[id] = new(follower)
+			// If this node is the leader, replication to the new member starts at the
+			// beginning of the log (an index of zero would ask for a snapshot forever).
+			r.followers[id].nextIndex = 1
 		}
 	}
 }
